@@ -22,6 +22,17 @@ def prop(pid, steps, assumptions=(), trusted=()):
 CLOCK = 'clock model (DESIGN 2.7): Instant::now() returns an arbitrary instant; the single .elapsed() call of a public call returns clock_reading(instant) (uninterpreted); Duration obeys vstd partial_cmp_spec; no monotonicity assumed. Guard: at most one `.elapsed()` call in the extracted file, else exit 2'
 FEEDCLOCK = 'feed() never reads the clock (it only stamps Instant::now() into arrival_time, which the abstraction forgets): proved as part of the refinement clauses in the C12/C14 slices, guarded syntactically here'
 
+def k(unit, pid, features=None, **kw):
+    d = {'kind': 'kani', 'unit': unit, 'set': pid, 'features': features}
+    d.update(kw)
+    return d
+
+
+KANI_TB = ['Kani 0.68 / CBMC 6.11 / CaDiCaL; Kani MIR semantics and its models of core',
+           'tools/krun.py weaver: appends `#[cfg(kani)] mod verif_kani;` to lib.rs of a scratch copy of the working tree (additive)']
+prop('C04', [k('k_newtype', 'C04'), k('k_newtype', 'C04', 'none'), v('v_msg', 'C04'), v('v_cc14', 'C04'), v('v_nrpn', 'C04'), v('v_poll', 'C04')],
+     ['restricted-integer inputs of every harness / contract are assumed in range (type invariant as precondition)', B1], VERUS_TB + KANI_TB)
+prop('C05', [k('k_newtype', 'C05')], ['Hash agreement with the numeric value is not examined (derived)'], KANI_TB)
 prop('C07', [v('v_cc14', 'C07')], [B1, B3], VERUS_TB)
 prop('C08', [v('v_cc14', 'C08')], [B1, B3], VERUS_TB)
 prop('C09', [v('v_msg', 'C09')], [B1], VERUS_TB)
@@ -63,4 +74,11 @@ DESC = {
  'C18': {'engine': 'verus', 'ref': '5/C18', 'technique': 'Verus panic-freedom obligations (expect/unwrap/assert/index/overflow) under inductive invariants',
          'text': 'Unbounded proof of panic freedom for every extracted function under the always-on invariants, which every mutator preserves; allocation frame by Kani (see evidence).', 'note': VNOTE},
 }
-NOT_APPLICABLE = {p: 'check under construction in this session (Kani unit not yet registered)' for p in ('C01', 'C02', 'C03', 'C04', 'C05', 'C06', 'C19')}
+KNOTE = 'Trusted: Kani/CBMC/CaDiCaL and Kani\'s models of core; loop-free code over full-width symbolic inputs is decided completely; bounded parts are listed under bounded_parts_not_counted_as_proved in the evidence and never counted. '
+DESC['C04'] = {'engine': 'kani', 'ref': '5/C04', 'technique': 'Kani harnesses over full-width symbolic inputs for every generated From/TryFrom/new/FromStr instantiation in two feature sets; Verus range postconditions on every encoder/scanner result',
+               'text': 'Complete (loop-free, full machine domain up to 128 bits) proof per conversion that results are in range and Ok/panic happens exactly for out-of-range input, for {std} and {no default features}; the range invariant of every value produced by bit helpers, encoders and scanners is a Verus postcondition.',
+               'note': KNOTE + 'Absolute FromStr claim: relative to core\'s primitive parser for all strings, real parser only up to the stated length bound.'}
+DESC['C05'] = {'engine': 'kani', 'ref': '5/C05', 'technique': 'Kani harnesses over full-width symbolic inputs: value preservation of all conversions, Ord/Eq/Default/MIN/MAX, Display through core::fmt against an own decimal routine',
+               'text': 'Complete proof of value preservation for every instantiated conversion and of comparison operators for all pairs; Display proved for every value of every type through the real core::fmt; FromStr proved relative to the primitive parser for every string and on the real parser up to a stated bound (bounded part not counted).',
+               'note': KNOTE}
+NOT_APPLICABLE = {p: 'check under construction in this session (Kani unit not yet registered)' for p in ('C01', 'C02', 'C03', 'C06', 'C19')}
